@@ -131,6 +131,10 @@ def run(case, whole=False):
         flow = hook.flow
         r = rec(flow)
         r["hooks"].append(hook.name)
+        if case.get("via") and hook.name == "requestheaders":
+            # an addon routes this flow through a parent HTTP proxy (the documented per-flow `server_conn.via`): the proxy
+            # then opens a CONNECT tunnel there and reads the parent's HTTP/1 reply (HttpUpstreamProxy.receive_handshake_data)
+            flow.server_conn.via = ("http", ("proxy.example", 3128))
         for e in edits:
             if e["flow"] == r["idx"] and e["at"] == hook.name:
                 apply_edit(flow.request if hook.name.startswith("request") else flow.response, e, flow)
@@ -167,11 +171,29 @@ def run(case, whole=False):
             p = R.parse_requests(w.sent_to(label))
             return len(p.messages)
 
+        preplies = case.get("proxy_replies", [])
+        next_prep = 0
+
         def due():
             """is there a server segment that may be delivered now?"""
-            nonlocal cur, next_resp
+            nonlocal cur, next_resp, next_prep
             if cur is not None:
                 return True
+            for lab in w.server_labels():
+                msgs = R.parse_requests(w.sent_to(lab)).messages
+                k = answered.get(lab, 0)
+                if len(msgs) > k and msgs[k]["method"] == b"CONNECT":
+                    # the parent proxy answers the CONNECT the proxy itself sent
+                    if next_prep >= len(preplies):
+                        continue
+                    pr = preplies[next_prep]
+                    data = unhx(pr["data_hex"])
+                    cuts = [] if whole else pr.get("cuts", [])
+                    segs = [data] if whole else cut(data, cuts)
+                    cur = [lab, [x for x in segs if x], bool(pr.get("close"))]
+                    answered[lab] = k + 1
+                    next_prep += 1
+                    return True
             if next_resp >= len(resps):
                 return False
             for lab in w.server_labels():
@@ -444,7 +466,7 @@ SURPLUS = [b"HTTP/1.1 200 OK\r\nContent-Length: 11\r\n\r\nUNSOLICITED", b"HTTP/1
            b"HTTP/1.1 200 OK\r\nContent-Le", b"HTTP/1.1 2", b"\r\n", b"garbage", b"\x00"]
 
 
-def gen_surplus_exchange(rng):
+def gen_surplus_exchange(rng, split=None):
     """keep-alive exchange in which the origin sends more than it was asked for: response k is followed, in the same
     stream (delivered whole, or split exactly at the boundary), by surplus bytes — garbage, a complete unsolicited response,
     the beginning of one — and 1-2 further requests go to the same host over the same client connection."""
@@ -472,7 +494,7 @@ def gen_surplus_exchange(rng):
     resps[k] = resps[k] + (rng.pick(SURPLUS) if rng.chance(0.8) else gen_response(rng))
     case = {"mode": mode, "client_hex": hx(b"".join(reqs)),
             "resps": [{"data_hex": hx(x), "close": False} for x in resps], "edits": []}
-    if rng.chance(0.4):
+    if split or (split is None and rng.chance(0.4)):
         # split exactly at the boundary; the surplus still arrives before the next request is sent (the client's next
         # request comes in a later segment, server segments first) — surplus that arrives after the next request has been
         # forwarded is indistinguishable from its response for any proxy
@@ -480,6 +502,35 @@ def gen_surplus_exchange(rng):
         case["ccuts"] = [len(b"".join(reqs[:k + 1]))]
         case["sched"] = []
     return case
+
+
+PROXY_REPLIES = [b"HTTP/1.1 200 Connection established\r\n\r\n", b"HTTP/1.0 200 OK\r\n\r\n", b"HTTP/1.1 200\r\n\r\n",
+                 b"HTTP/1.1 200 OK\r\nProxy-Agent: p/1.0\r\nX-Fold: a\r\n b\r\n\r\n", b"HTTP/1.1 200 OK\nVia: 1.1 p\n\n", b"\r\nHTTP/1.1 200 OK\r\n\r\n",
+                 b"\n\r\nHTTP/1.1 299 Fine\r\n\r\n", b"HTTP/1.1 204 No Content\r\n\r\n", b"http/1.1 200 ok\r\n\r\n",
+                 b"HTTP/1.1 407 Proxy Authentication Required\r\nProxy-Authenticate: Basic realm=\"p\"\r\nContent-Length: 6\r\n\r\ndenied",
+                 b"HTTP/1.1 502 Bad Gateway\r\nConnection: close\r\n\r\n", b"HTTP/1.1 403 Forbidden\r\nTransfer-Encoding: chunked\r\n\r\n2\r\nno\r\n0\r\n\r\n",
+                 b"HTTP/1.1 100 Continue\r\n\r\n", b"HTTP/1.1 301 Moved\r\nLocation: http://x/\r\n\r\n", b"HTTP/1.1 2000 OK\r\n\r\n", b"HTTP/1.1 200 OK\r\nNoColon\r\n\r\n",
+                 b"SSH-2.0-OpenSSH_9\r\n", b"\x05\x00", b"\x16\x03\x01\x00\x02\x02\x28", b"HTTP", b"HTTP/1.1 200 OK\r\n"]
+
+
+def gen_via_exchange(rng):
+    """an addon routes the flows through a parent HTTP proxy: the proxy opens a CONNECT tunnel there and reads the parent's
+    HTTP/1 reply — a third inbound HTTP/1 byte stream (besides client requests and origin responses)"""
+    mode = rng.weighted([(5, "regular"), (3, "reverse"), (2, "transparent")])
+    host = b"origin.example"
+    n = rng.randint(1, 2)
+    reqs, resps = [], []
+    for i in range(n):
+        t = (b"http://" + host + b"/v%d" % i) if mode == "regular" else b"/v%d" % i
+        reqs.append(gen_request(rng, mode) if rng.chance(0.2) else b"GET " + t + b" HTTP/1.1\r\nHost: " + host + b"\r\n\r\n")
+        resps.append(gen_response(rng) if rng.chance(0.3) else b"HTTP/1.1 200 OK\r\nContent-Length: 2\r\n\r\nv%d" % i)
+    replies = []
+    for _ in range(n + 1):
+        d = rng.pick(PROXY_REPLIES[:9]) if rng.chance(0.6) else rng.pick(PROXY_REPLIES)
+        if rng.chance(0.2): d = mutate(rng, d)
+        replies.append({"data_hex": hx(d), "cuts": [], "close": False})
+    return {"mode": mode, "via": True, "client_hex": hx(b"".join(reqs)),
+            "resps": [{"data_hex": hx(x), "close": False} for x in resps], "edits": [], "proxy_replies": replies}
 
 
 def gen_exchange(rng):
@@ -533,6 +584,11 @@ def normalize_causality(case):
     rs = []
     cm = [m["method"] for m in R.parse_requests(client).messages]
     for k, r in enumerate(case["resps"]):
+        if case.get("keep_surplus"):
+            # gen_surplus_exchange in its split form: the surplus behind response k arrives — in the same segment or in one
+            # of its own — while no request is outstanding (the next client request comes in a later segment, server
+            # segments first): a legitimate server stream, and both deliveries must end the same way
+            rs.append({"data_hex": r["data_hex"], "close": False}); continue
         raw = unhx(r["data_hex"])
         lead = len(raw) - len(raw.lstrip(b"\r\n"))        # blank lines before the status line are skipped by the proxy
         p = R.parse_responses(raw[lead:], [cm[k]] if k < len(cm) else None, eof=True)
@@ -553,6 +609,17 @@ def normalize_causality(case):
             open_ended = False
         rs.append({"data_hex": hx(data), "close": bool(r.get("close")) and open_ended})
     c = dict(case); c["resps"] = rs
+    if case.get("proxy_replies"):
+        prs = []
+        for pr in case["proxy_replies"]:
+            raw = unhx(pr["data_hex"])
+            lead = len(raw) - len(raw.lstrip(b"\r\n"))
+            m = re.match(rb"(?i)HTTP/[0-9]\.[0-9][ \t]+2[0-9][0-9]\b", raw[lead:])
+            h = re.search(rb"\n\r?\n", raw[lead:])
+            if m and h:
+                raw = raw[:lead + h.end()]      # a 2xx reply opens the tunnel: nothing follows until the request has been sent
+            prs.append(dict(pr, data_hex=hx(raw)))
+        c["proxy_replies"] = prs
     return c
 
 
@@ -571,4 +638,7 @@ def gen_schedule(rng, case, kind=None):
     rs = normalize_causality(case)["resps"]
     c["resps"] = rs
     c["scuts"] = [cuts(unhx(r["data_hex"])) for r in rs]
+    if case.get("proxy_replies"):
+        c["proxy_replies"] = [dict(pr, cuts=(cuts(unhx(pr["data_hex"])) if not rng.chance(0.3) else [rng.randint(1, 6)]))
+                              for pr in normalize_causality(case)["proxy_replies"]]
     return c
